@@ -226,6 +226,8 @@ def call_real(case, util):
 
 # ------------------------------------------------------------------ Coq terms
 def cz(n):
+    if abs(n) >= 10 ** 30:     # Coq reads a 4300-digit decimal numeral in half a minute, the hexadecimal one at once
+        return '(-%s)' % hex(-n) if n < 0 else hex(n)
     return '(%d)' % n if n < 0 else '%d' % n
 
 
@@ -354,8 +356,11 @@ def check_with_model(cases, outs, tag):
         path = os.path.join(WORK, 'cases_%s_%d.v' % (tag, k))
         with open(path, 'w') as f:
             f.write(PRELUDE)
+            # one definition per case: elaborating a single 200 kB list literal is an order of magnitude slower
+            for i, (c, o) in enumerate(part):
+                f.write('Definition f%d : bool := %s.\n' % (i, coq_flag(c, o)))
             f.write('Definition flags : list Z := [\n')
-            f.write(';\n'.join('(if %s then 1 else 0)' % coq_flag(c, o) for c, o in part))
+            f.write(';\n'.join('(if f%d then 1 else 0)' % i for i in range(len(part))))
             f.write('].\nEval vm_compute in flags.\n')
         vals = run_coq_flags(path, len(part))
         failed = [k + i for i, v in enumerate(vals) if v != 1]
@@ -746,6 +751,12 @@ FIXED = [
     ('member_of', '!in:'), ('member_of', 'in:' + '0' * 32 + ',' + '0' * 32),
     ('traits', '!!!!FOO', True, False), ('traits', 'in:A, A ,B', True, True), ('traits', '!', True, True),
 ]
+
+
+def tuplify(case):
+    """a case read back from a JSON replay file"""
+    return tuple([tuple(x) if isinstance(x, list) and len(x) == 2 and isinstance(x[0], str) else x for x in y]
+                 if isinstance(y, list) else y for y in case)
 
 
 # ------------------------------------------------------------------ run
